@@ -406,8 +406,7 @@ def sumproduct(*args):
 def trunc(number, num_digits=0):
     # Excel reference: https://support.microsoft.com/en-us/office/
     #   TRUNC-function-8B86A64C-3127-43DB-BA14-AA5CEB292721
-    factor = 10 ** int(num_digits)
-    return int(number * factor) / factor
+    return _round(number, num_digits, rounding=ROUND_DOWN)
 
 
 # Older mappings for excel functions that match Python built-in and keywords
